@@ -194,6 +194,34 @@ def check_roots(ctx, R, rule, handlers=None):
                 continue
             main.append((caller, node, root, ce))
         ok = len(main) <= 1
+        # one call site inside a loop is as many transactions as the loop
+        # has iterations - unless the loop ends with the first call that
+        # returns (a retry loop: break / return right after the call)
+        for caller, node, root, ce in main:
+            cur = getattr(C.stmt_of(node), '_parent', None)
+            st0 = C.stmt_of(node)
+            while cur is not None and cur is not caller.node:
+                if isinstance(cur, (ast.For, ast.While)):
+                    g0 = cfgmod.cfg_of(caller)
+                    # normal successors of the call statement inside the
+                    # loop: must leave the loop (break/return) before the
+                    # next iteration
+                    nxt = g0.reachable_from([st0], normal_only=True)
+                    again = cur in nxt and not _leaves_loop_first(
+                        g0, st0, cur)
+                    if again:
+                        ok = False
+                        R.ob(rule + '.2' if rule == 'R4' else rule + 'b',
+                             '%s:core-transaction-per-iteration' % f.qname,
+                             False,
+                             'a transaction that writes invariant-bearing '
+                             'tables is not opened once per element of a '
+                             'loop (each iteration would commit on its own)',
+                             '%s -> %s in a loop at line %d' % (
+                                 caller.loc(node), root.qname, cur.lineno),
+                             func=caller, node=node)
+                    break
+                cur = getattr(cur, '_parent', None)
         if len(main) > 1:
             # mutually exclusive sites in one function are one transaction
             fs = {c.qname for c, _n, _r, _ce in main}
@@ -217,6 +245,20 @@ def check_roots(ctx, R, rule, handlers=None):
              func=main[0][0] if main else f,
              node=main[0][1] if main else None)
     return n
+
+
+def _leaves_loop_first(g, st, loop):
+    """After statement st (normal completion) control leaves ``loop``
+    (break / return / raise) before it can reach the loop head again."""
+    # the loop head is reachable from st only through statements of the
+    # loop body; cut the exits: if the head is still reachable when break
+    # and return statements are removed, an iteration can follow
+    exits = set()
+    for x in ast.walk(loop):
+        if isinstance(x, (ast.Break, ast.Return)) and x is not st:
+            exits.add(x)
+    reach = g.reachable_from([st], removed=exits, normal_only=True)
+    return loop not in reach
 
 
 def _only_via_create_consumer(ctx, handler, caller):
